@@ -16,6 +16,7 @@ package frugal
 import (
 	"encoding/binary"
 	"fmt"
+	"io"
 
 	"github.com/apache/thrift/lib/go/thrift"
 )
@@ -49,6 +50,39 @@ func (f *TMemoryOutputBuffer) Write(buf []byte) (int, error) {
 			fmt.Sprintf("Buffer size reached (%d)", f.limit))
 	}
 	return f.TMemoryBuffer.Write(buf)
+}
+
+// WriteString, WriteByte, WriteRune and ReadFrom shadow the methods promoted
+// from the embedded buffer so that every way of appending (protocols write
+// strings and single bytes through thrift.TRichTransport) is subject to the
+// size limit.
+
+// WriteString writes the string to the buffer subject to the size limit.
+func (f *TMemoryOutputBuffer) WriteString(s string) (int, error) {
+	return f.Write([]byte(s))
+}
+
+// WriteByte writes the byte to the buffer subject to the size limit.
+func (f *TMemoryOutputBuffer) WriteByte(c byte) error {
+	_, err := f.Write([]byte{c})
+	return err
+}
+
+// WriteRune writes the UTF-8 encoding of the rune to the buffer subject to
+// the size limit.
+func (f *TMemoryOutputBuffer) WriteRune(r rune) (int, error) {
+	return f.Write([]byte(string(r)))
+}
+
+// ReadFrom reads from r until EOF and writes the data to the buffer subject
+// to the size limit.
+func (f *TMemoryOutputBuffer) ReadFrom(r io.Reader) (int64, error) {
+	data, err := io.ReadAll(r)
+	if err != nil {
+		return 0, err
+	}
+	n, err := f.Write(data)
+	return int64(n), err
 }
 
 // Reset clears the buffer
